@@ -101,6 +101,12 @@ def main(tier, seed, replay=None):
                 continue
             has_meta = any(x in ("--help", "-h", "--version", "-v") for x in v[:v.index(d["command"])] ) if d.get("command") in v else d.get("meta")
             if not d.get("wf"):
+                METAS = ("--version", "-v", "--help", "-h", "--html-path", "--man-path", "--info-path", "--exec-path")
+                if not any(x in METAS or x.startswith("--exec-path") or x.startswith("--list-cmds") for x in v) and sorted(inv) != sorted(v):
+                    # ill-formed, but no help / version / path query anywhere in it: whatever git makes of the line, it has to be
+                    # handed the same words (an empty-string argument is a word too)
+                    rep.direct_violation("C18/ill-formed-vector-words-changed", dict(argv=v, reemitted=inv))
+                    continue
                 rep.counters["malformed_vectors_not_judged"] += 1
                 continue   # ill-formed command lines (missing values, unknown options, several meta options): git fails either way
             if not d.get("meta"):
